@@ -51,10 +51,10 @@ def value(ctx):
         if f.access != "public" or f.kind in ("ctor", "dtor"):
             continue
         rt = f.ret
-        ok = not (rt.endswith("&") or rt.endswith("*")) and not re.search(r"iterator", rt)
-        ok = ok and (rt in ("bool", "void") or rt.startswith("std::shared_ptr<") or
-                     rt.startswith("std::vector<std::shared_ptr<"))
-        ctx.ob(rid, ok, f.where, "%s returns by value (bool / shared_ptr / vector of shared_ptr)" % f.name,
+        # by value, and the value holds nothing that points into the maps: no reference, raw pointer, iterator or
+        # reference_wrapper anywhere in the type (strings, counts, shared_ptr and containers of those are values)
+        ok = not (rt.endswith("&") or rt.endswith("*")) and not re.search(r"iterator|reference_wrapper|\*|&", rt)
+        ctx.ob(rid, ok, f.where, "%s returns a self-contained value (nothing pointing into the maps)" % f.name,
                "" if ok else "returns " + rt, fn=f.label, inst=f.qname)
 
 
